@@ -7,10 +7,13 @@
                   (`Lemmas/RegexCost.lean` proves `(runs ..).map (·.1) = ends ..`).
   * `Rx.paths`  : number of backtracking paths (`(runs env s r i []).length`).
   * `Rx.work`   : number of sub-match attempts made by an exhaustive backtracking search.
-  * `Rx.Det`    : the strong check: the end positions of `r` from any start are pairwise distinct.
-  * `Rx.StarSafe` : every unbounded `rep` sub-term (also inside look-arounds) is `Det`; a bounded
+  * `Rx.Det sp`  : the strong check: the end positions of `r` from any start are pairwise distinct.
+  * `Rx.StarSafe sp` : every unbounded `rep` sub-term (also inside look-arounds) is `Det`; a bounded
                   one is `Det` or has a `StarSafe` body.
   * `Rx.pcoef/pdeg`, `Rx.wcoef/wdeg` : the constants of the polynomial bounds.
+  The checks are parameterised by `sp : Specials`, the non-ASCII code points that case-insensitive
+  matching identifies with ASCII letters (`[]` for `asciiEnv`, `foldSpecials` for `pyFoldEnv`);
+  `Rx.EnvOK sp env` is the hypothesis on the environment under which they are sound.
 
   No Mathlib.
 -/
@@ -132,14 +135,31 @@ end
 /-! ## Character-set abstraction
 
 A `CSet` over-approximates a set of "next input symbols" `Option Nat` (`none` = end of input).
-It is a table over 130 keys: key `c` for an ASCII code point `c < 128`, key `128` for every
-non-ASCII code point, key `129` for end of input. -/
+The analysis is parameterised by a list `sp : Specials` of *special* non-ASCII code points, each
+with the ASCII letter it is case-insensitively identified with (`[]` for `asciiEnv`,
+`foldSpecials` for Python's `re.IGNORECASE`).  A `CSet` is a table over the keys `keys sp`:
+key `c` for an ASCII code point `c < 128`, key `128` for every non-ASCII code point that is not
+special, key `129` for end of input, and key `c + 2` (≥ 130) for a special code point `c`.  On
+the ASCII and special keys the tables are exact (up to the Unicode categories, which are never
+decided); key `128` carries an upper / lower approximation. -/
 
 abbrev CSet := Nat → Bool
 
-def key : Option Nat → Nat
+/-- Is `c` one of the special code points? -/
+def isSpecial (sp : Specials) (c : Nat) : Bool := (sp.lookup c).isSome
+
+/-- Is `c` a non-ASCII code point that is not special (key `128`)? -/
+def isOther (sp : Specials) (c : Nat) : Bool := 128 ≤ c && !isSpecial sp c
+
+def key (sp : Specials) : Option Nat → Nat
   | none => 129
-  | some c => if c < 128 then c else 128
+  | some c => if c < 128 then c else if isSpecial sp c then c + 2 else 128
+
+/-- All keys. -/
+def keys (sp : Specials) : List Nat := List.range 130 ++ sp.map (fun p => p.1 + 2)
+
+/-- The code point an exact key (ASCII or special) stands for. -/
+def cpOfKey (k : Nat) : Nat := if k < 128 then k else k - 2
 
 namespace CSet
 def all : CSet := fun _ => true
@@ -147,16 +167,20 @@ def empty : CSet := fun _ => false
 def union (a b : CSet) : CSet := fun k => a k || b k
 def inter (a b : CSet) : CSet := fun k => a k && b k
 def compl (a : CSet) : CSet := fun k => !a k
-def mem (a : CSet) (o : Option Nat) : Bool := a (key o)
-def disjoint (a b : CSet) : Bool := (List.range 130).all fun k => !(a k && b k)
+def mem (sp : Specials) (a : CSet) (o : Option Nat) : Bool := a (key sp o)
+def disjoint (sp : Specials) (a b : CSet) : Bool := (keys sp).all fun k => !(a k && b k)
 end CSet
 
-/-- Hypothesis on the character environment under which the ASCII tables are exact: folding is
-    ASCII lower-casing on ASCII and never maps a non-ASCII code point into ASCII. (`asciiEnv`
-    satisfies it.) -/
-structure EnvOK (env : CharEnv) : Prop where
+/-- Hypothesis on the character environment under which the tables computed for the specials
+    `sp` are sound: folding is ASCII lower-casing on ASCII, maps every special code point to its
+    ASCII image, and maps no other non-ASCII code point into ASCII.  (`asciiEnv` satisfies it
+    for `[]`, `pyFoldEnv` for `foldSpecials`, `foldEnv sp` for every well-formed `sp`.) -/
+structure EnvOK (sp : Specials) (env : CharEnv) : Prop where
+  /-- well-formedness of the list: specials are non-ASCII, their images ASCII -/
+  wf : ∀ p ∈ sp, 128 ≤ p.1 ∧ p.2 < 128
   ascii : ∀ c, c < 128 → env.fold c = lowerCp c
-  high : ∀ c, 128 ≤ c → 128 ≤ env.fold c
+  special : ∀ p ∈ sp, env.fold p.1 = p.2
+  high : ∀ c, 128 ≤ c → isSpecial sp c = false → 128 ≤ env.fold c
 
 def isLeaf : Rx → Bool
   | .lit _ _ | .notLit _ _ | .any _ | .set _ _ _ => true
@@ -170,32 +194,39 @@ def charOk (env : CharEnv) : Rx → Nat → Bool
   | .set neg items ic, x => setHas env neg items ic x
   | _, _ => false
 
-/-- Can the item contain a non-ASCII code point? -/
-def itemHigh : SetItem → Bool
-  | .ch x => 128 ≤ x
+/-- Can the item contain a non-ASCII code point that is not special?  (A `.ch` item is compared
+    with the input either literally or through folding; either way a special `.ch` only matches
+    ASCII and special input.) -/
+def itemHigh (sp : Specials) : SetItem → Bool
+  | .ch x => isOther sp x
   | .range _ hi => 128 ≤ hi
   | .cat _ => true
 
-/-- Upper (`upper = true`) / lower approximation of an item at a key. Categories are unknown. -/
-def itemApx (upper : Bool) (ic : Bool) (k : Nat) (it : SetItem) : Bool :=
-  if k < 128 then
+/-- Upper (`upper = true`) / lower approximation of an item at a key. Categories are unknown.
+    On ASCII and special keys the other items are evaluated exactly, at the code point of the key
+    in the environment `foldEnv sp`. -/
+def itemApx (sp : Specials) (upper : Bool) (ic : Bool) (k : Nat) (it : SetItem) : Bool :=
+  if k == 128 then (upper && itemHigh sp it)
+  else if k == 129 then false
+  else
     match it with
     | .cat _ => upper
-    | it => itemHas asciiEnv ic k it
-  else if k == 128 then (upper && itemHigh it)
-  else false
+    | it => itemHas (foldEnv sp) ic (cpOfKey k) it
 
 /-- Upper / lower approximation of a leaf as a `CSet` (never contains end of input). -/
-def leafApx (upper : Bool) : Rx → CSet
+def leafApx (sp : Specials) (upper : Bool) : Rx → CSet
   | .lit c ic => fun k =>
-    if k < 128 then (if ic then lowerCp k == lowerCp c else k == c)
-    else if k == 128 then (upper && 128 ≤ c) else false
+    if k == 128 then (upper && isOther sp c)
+    else if k == 129 then false
+    else (if ic then (foldEnv sp).fold (cpOfKey k) == (foldEnv sp).fold c else cpOfKey k == c)
   | .notLit c ic => fun k =>
-    if k < 128 then !(if ic then lowerCp k == lowerCp c else k == c)
-    else if k == 128 then (upper || c < 128) else false
-  | .any dotall => fun k => if k < 128 then (dotall || k != 10) else k == 128
+    if k == 128 then (upper || !isOther sp c)
+    else if k == 129 then false
+    else !(if ic then (foldEnv sp).fold (cpOfKey k) == (foldEnv sp).fold c else cpOfKey k == c)
+  | .any dotall => fun k =>
+    if k == 128 then true else if k == 129 then false else (dotall || cpOfKey k != 10)
   | .set neg items ic => fun k =>
-    if k < 129 then (items.any (itemApx (upper != neg) ic k)) != neg else false
+    if k == 129 then false else (items.any (itemApx sp (upper != neg) ic k)) != neg
   | _ => fun _ => false
 
 /-! ## Syntactic equality -/
@@ -243,65 +274,65 @@ end
 mutual
 /-- `first r` : if `r` matches at all from `p`, the next symbol `s[p]?` lies in `first r`.
     (For zero-width assertions this is the guard they impose.) -/
-def first : Rx → CSet
-  | .lit c ic => leafApx true (.lit c ic)
-  | .notLit c ic => leafApx true (.notLit c ic)
-  | .any d => leafApx true (.any d)
-  | .set n is ic => leafApx true (.set n is ic)
-  | .seq rs => firstSeq rs
-  | .alt rs => firstAlt rs
-  | .group _ r => first r
-  | .rep mn _ _ r => if mn == 0 then CSet.all else first r
+def first (sp : Specials) : Rx → CSet
+  | .lit c ic => leafApx sp true (.lit c ic)
+  | .notLit c ic => leafApx sp true (.notLit c ic)
+  | .any d => leafApx sp true (.any d)
+  | .set n is ic => leafApx sp true (.set n is ic)
+  | .seq rs => firstSeq sp rs
+  | .alt rs => firstAlt sp rs
+  | .group _ r => first sp r
+  | .rep mn _ _ r => if mn == 0 then CSet.all else first sp r
   | .bos => CSet.all
   | .eol => fun k => k == 10 || k == 129
   | .eos => fun k => k == 129
-  | .look true true r => if isLeaf r then CSet.compl (leafApx false r) else CSet.all
-  | .look true false r => first r
+  | .look true true r => if isLeaf r then CSet.compl (leafApx sp false r) else CSet.all
+  | .look true false r => first sp r
   | .look false _ _ => CSet.all
-def firstSeq : List Rx → CSet
+def firstSeq (sp : Specials) : List Rx → CSet
   | [] => CSet.all
   | r :: rs =>
-    if nullable r then CSet.inter (first r) (CSet.union (cfirst r) (firstSeq rs)) else first r
-def firstAlt : List Rx → CSet
+    if nullable r then CSet.inter (first sp r) (CSet.union (cfirst sp r) (firstSeq sp rs)) else first sp r
+def firstAlt (sp : Specials) : List Rx → CSet
   | [] => CSet.empty
-  | r :: rs => CSet.union (first r) (firstAlt rs)
+  | r :: rs => CSet.union (first sp r) (firstAlt sp rs)
 /-- `cfirst r` : if `r` has an end strictly after `p`, then `s[p]?` lies in `cfirst r`. -/
-def cfirst : Rx → CSet
-  | .lit c ic => leafApx true (.lit c ic)
-  | .notLit c ic => leafApx true (.notLit c ic)
-  | .any d => leafApx true (.any d)
-  | .set n is ic => leafApx true (.set n is ic)
-  | .seq rs => cfirstSeq rs
-  | .alt rs => cfirstAlt rs
-  | .group _ r => cfirst r
-  | .rep _ _ _ r => cfirst r
+def cfirst (sp : Specials) : Rx → CSet
+  | .lit c ic => leafApx sp true (.lit c ic)
+  | .notLit c ic => leafApx sp true (.notLit c ic)
+  | .any d => leafApx sp true (.any d)
+  | .set n is ic => leafApx sp true (.set n is ic)
+  | .seq rs => cfirstSeq sp rs
+  | .alt rs => cfirstAlt sp rs
+  | .group _ r => cfirst sp r
+  | .rep _ _ _ r => cfirst sp r
   | .bos | .eol | .eos | .look _ _ _ => CSet.empty
-def cfirstSeq : List Rx → CSet
+def cfirstSeq (sp : Specials) : List Rx → CSet
   | [] => CSet.empty
   | r :: rs =>
-    CSet.union (cfirst r) (if nullable r then CSet.inter (first r) (cfirstSeq rs) else CSet.empty)
-def cfirstAlt : List Rx → CSet
+    CSet.union (cfirst sp r) (if nullable r then CSet.inter (first sp r) (cfirstSeq sp rs) else CSet.empty)
+def cfirstAlt (sp : Specials) : List Rx → CSet
   | [] => CSet.empty
-  | r :: rs => CSet.union (cfirst r) (cfirstAlt rs)
+  | r :: rs => CSet.union (cfirst sp r) (cfirstAlt sp rs)
 end
 
 mutual
 /-- `fl r` (followLast): for `Det r`, if `e₁ < e₂` are both ends of `r` from the same start, the
     symbol `s[e₁]` lies in `fl r`. -/
-def fl : Rx → CSet
+def fl (sp : Specials) : Rx → CSet
   | .lit _ _ | .notLit _ _ | .any _ | .set _ _ _ => CSet.empty
-  | .seq rs => flSeq rs
-  | .alt rs => flAlt rs
-  | .group _ r => fl r
-  | .rep mn mx _ r => if mx == some mn then fl r else CSet.union (fl r) (cfirst r)
+  | .seq rs => flSeq sp rs
+  | .alt rs => flAlt sp rs
+  | .group _ r => fl sp r
+  | .rep mn mx _ r => if mx == some mn then fl sp r else CSet.union (fl sp r) (cfirst sp r)
   | .bos | .eol | .eos | .look _ _ _ => CSet.empty
-def flSeq : List Rx → CSet
+def flSeq (sp : Specials) : List Rx → CSet
   | [] => CSet.empty
   | r :: rs =>
-    CSet.union (flSeq rs) (if nullableSeq rs then CSet.inter (fl r) (firstSeq rs) else CSet.empty)
-def flAlt : List Rx → CSet
+    CSet.union (flSeq sp rs) (if nullableSeq rs then CSet.inter (fl sp r) (firstSeq sp rs) else CSet.empty)
+def flAlt (sp : Specials) : List Rx → CSet
   | [] => CSet.empty
-  | r :: rs => CSet.union (fl r) (flAlt rs)
+  | r :: rs => CSet.union (fl sp r) (flAlt sp rs)
 end
 
 /-! ## Mutual exclusion of alternatives -/
@@ -337,15 +368,15 @@ def leafStrip (x y : Rx) : Option (Rx × Rx) :=
   | .seq (a :: as), .seq (b :: bs) => if isLeaf a && beq b a then some (.seq as, .seq bs) else none
   | _, _ => none
 
-def excl : Nat → Rx → Rx → Bool
+def excl (sp : Specials) : Nat → Rx → Rx → Bool
   | 0, _, _ => false
   | fuel + 1, x, y =>
-    CSet.disjoint (first x) (first y) || exclGuard x y || exclMunch x y || exclBehind x y ||
+    CSet.disjoint sp (first sp x) (first sp y) || exclGuard x y || exclMunch x y || exclBehind x y ||
     (match optSplit x with
-      | some (x1, x2) => excl fuel x1 y && excl fuel x2 y
+      | some (x1, x2) => excl sp fuel x1 y && excl sp fuel x2 y
       | none => false) ||
     (match leafStrip x y with
-      | some (x', y') => excl fuel x' y'
+      | some (x', y') => excl sp fuel x' y'
       | none => false)
 
 def exclFuel : Nat := 6
@@ -354,121 +385,121 @@ def exclFuel : Nat := 6
 
 mutual
 /-- Strong determinism: all ends of `r` from any start are distinct. -/
-def Det : Rx → Bool
+def Det (sp : Specials) : Rx → Bool
   | .lit _ _ | .notLit _ _ | .any _ | .set _ _ _ => true
-  | .seq rs => detSeq rs
-  | .alt rs => detAlt rs
-  | .group _ r => Det r
-  | .rep _ mx _ r => Det r && !nullable r && (mx == some 1 || CSet.disjoint (fl r) (first r))
+  | .seq rs => detSeq sp rs
+  | .alt rs => detAlt sp rs
+  | .group _ r => Det sp r
+  | .rep _ mx _ r => Det sp r && !nullable r && (mx == some 1 || CSet.disjoint sp (fl sp r) (first sp r))
   | .bos | .eol | .eos | .look _ _ _ => true
-def detSeq : List Rx → Bool
+def detSeq (sp : Specials) : List Rx → Bool
   | [] => true
-  | r :: rs => Det r && detSeq rs && CSet.disjoint (fl r) (cfirstSeq rs)
-def detAlt : List Rx → Bool
+  | r :: rs => Det sp r && detSeq sp rs && CSet.disjoint sp (fl sp r) (cfirstSeq sp rs)
+def detAlt (sp : Specials) : List Rx → Bool
   | [] => true
-  | r :: rs => Det r && detAlt rs && rs.all (fun y => excl exclFuel r y)
+  | r :: rs => Det sp r && detAlt sp rs && rs.all (fun y => excl sp exclFuel r y)
 end
 
 mutual
 /-- Every unbounded repeat in `r` (also inside look-arounds) is deterministic with a
     non-nullable body; a bounded repeat is either deterministic or has a `StarSafe` body. -/
-def StarSafe : Rx → Bool
+def StarSafe (sp : Specials) : Rx → Bool
   | .lit _ _ | .notLit _ _ | .any _ | .set _ _ _ => true
-  | .seq rs => starSafeList rs
-  | .alt rs => starSafeList rs
-  | .group _ r => StarSafe r
-  | .rep mn mx g r => StarSafe r && (Det (.rep mn mx g r) || mx.isSome)
+  | .seq rs => starSafeList sp rs
+  | .alt rs => starSafeList sp rs
+  | .group _ r => StarSafe sp r
+  | .rep mn mx g r => StarSafe sp r && (Det sp (.rep mn mx g r) || mx.isSome)
   | .bos | .eol | .eos => true
-  | .look _ _ r => StarSafe r
-def starSafeList : List Rx → Bool
+  | .look _ _ r => StarSafe sp r
+def starSafeList (sp : Specials) : List Rx → Bool
   | [] => true
-  | r :: rs => StarSafe r && starSafeList rs
+  | r :: rs => StarSafe sp r && starSafeList sp rs
 end
 
 /-! ## Constants of the polynomial bounds -/
 
 mutual
 /-- `paths ≤ pcoef r * (|s|+1) ^ pdeg r`. -/
-def pcoef : Rx → Nat
+def pcoef (sp : Specials) : Rx → Nat
   | .lit _ _ | .notLit _ _ | .any _ | .set _ _ _ => 1
-  | .seq rs => if detSeq rs then 1 else pcoefSeq rs
-  | .alt rs => if detAlt rs then 1 else pcoefAlt rs
-  | .group _ r => pcoef r
+  | .seq rs => if detSeq sp rs then 1 else pcoefSeq sp rs
+  | .alt rs => if detAlt sp rs then 1 else pcoefAlt sp rs
+  | .group _ r => pcoef sp r
   | .rep mn mx g r =>
-    if Det (.rep mn mx g r) then 1 else
+    if Det sp (.rep mn mx g r) then 1 else
     match mx with
-    | some m => (m + 1) * pcoef r ^ m
+    | some m => (m + 1) * pcoef sp r ^ m
     | none => 1
   | .bos | .eol | .eos | .look _ _ _ => 1
-def pcoefSeq : List Rx → Nat
+def pcoefSeq (sp : Specials) : List Rx → Nat
   | [] => 1
-  | r :: rs => pcoef r * pcoefSeq rs
-def pcoefAlt : List Rx → Nat
+  | r :: rs => pcoef sp r * pcoefSeq sp rs
+def pcoefAlt (sp : Specials) : List Rx → Nat
   | [] => 1
-  | r :: rs => pcoef r + pcoefAlt rs
+  | r :: rs => pcoef sp r + pcoefAlt sp rs
 end
 
 mutual
-def pdeg : Rx → Nat
+def pdeg (sp : Specials) : Rx → Nat
   | .lit _ _ | .notLit _ _ | .any _ | .set _ _ _ => 0
-  | .seq rs => if detSeq rs then 1 else pdegSeq rs
-  | .alt rs => if detAlt rs then 1 else pdegAlt rs
-  | .group _ r => pdeg r
+  | .seq rs => if detSeq sp rs then 1 else pdegSeq sp rs
+  | .alt rs => if detAlt sp rs then 1 else pdegAlt sp rs
+  | .group _ r => pdeg sp r
   | .rep mn mx g r =>
-    if Det (.rep mn mx g r) then 1 else
+    if Det sp (.rep mn mx g r) then 1 else
     match mx with
-    | some m => m * pdeg r
+    | some m => m * pdeg sp r
     | none => 1
   | .bos | .eol | .eos | .look _ _ _ => 0
-def pdegSeq : List Rx → Nat
+def pdegSeq (sp : Specials) : List Rx → Nat
   | [] => 0
-  | r :: rs => pdeg r + pdegSeq rs
-def pdegAlt : List Rx → Nat
+  | r :: rs => pdeg sp r + pdegSeq sp rs
+def pdegAlt (sp : Specials) : List Rx → Nat
   | [] => 0
-  | r :: rs => max (pdeg r) (pdegAlt rs)
+  | r :: rs => max (pdeg sp r) (pdegAlt sp rs)
 end
 
 mutual
 /-- `work ≤ wcoef r * (|s|+1) ^ wdeg r`. -/
-def wcoef : Rx → Nat
+def wcoef (sp : Specials) : Rx → Nat
   | .lit _ _ | .notLit _ _ | .any _ | .set _ _ _ => 1
-  | .seq rs => wcoefSeq rs
-  | .alt rs => wcoefAlt rs
-  | .group _ r => 1 + wcoef r
+  | .seq rs => wcoefSeq sp rs
+  | .alt rs => wcoefAlt sp rs
+  | .group _ r => 1 + wcoef sp r
   | .rep mn mx g r =>
-    if Det (.rep mn mx g r) then 2 * (1 + wcoef r) else
+    if Det sp (.rep mn mx g r) then 2 * (1 + wcoef sp r) else
     match mx with
-    | some m => (m + 1) * (1 + wcoef r) * pcoef r ^ m
+    | some m => (m + 1) * (1 + wcoef sp r) * pcoef sp r ^ m
     | none => 1
   | .bos | .eol | .eos => 1
-  | .look _ _ r => 1 + wcoef r
-def wcoefSeq : List Rx → Nat
+  | .look _ _ r => 1 + wcoef sp r
+def wcoefSeq (sp : Specials) : List Rx → Nat
   | [] => 1
-  | r :: rs => wcoef r + pcoef r * wcoefSeq rs
-def wcoefAlt : List Rx → Nat
+  | r :: rs => wcoef sp r + pcoef sp r * wcoefSeq sp rs
+def wcoefAlt (sp : Specials) : List Rx → Nat
   | [] => 1
-  | r :: rs => wcoef r + wcoefAlt rs
+  | r :: rs => wcoef sp r + wcoefAlt sp rs
 end
 
 mutual
-def wdeg : Rx → Nat
+def wdeg (sp : Specials) : Rx → Nat
   | .lit _ _ | .notLit _ _ | .any _ | .set _ _ _ => 0
-  | .seq rs => wdegSeq rs
-  | .alt rs => wdegAlt rs
-  | .group _ r => wdeg r
+  | .seq rs => wdegSeq sp rs
+  | .alt rs => wdegAlt sp rs
+  | .group _ r => wdeg sp r
   | .rep mn mx g r =>
-    if Det (.rep mn mx g r) then wdeg r + 1 else
+    if Det sp (.rep mn mx g r) then wdeg sp r + 1 else
     match mx with
-    | some m => wdeg r + m * pdeg r
+    | some m => wdeg sp r + m * pdeg sp r
     | none => 1
   | .bos | .eol | .eos => 0
-  | .look _ _ r => wdeg r
-def wdegSeq : List Rx → Nat
+  | .look _ _ r => wdeg sp r
+def wdegSeq (sp : Specials) : List Rx → Nat
   | [] => 0
-  | r :: rs => max (wdeg r) (pdeg r + wdegSeq rs)
-def wdegAlt : List Rx → Nat
+  | r :: rs => max (wdeg sp r) (pdeg sp r + wdegSeq sp rs)
+def wdegAlt (sp : Specials) : List Rx → Nat
   | [] => 0
-  | r :: rs => max (wdeg r) (wdegAlt rs)
+  | r :: rs => max (wdeg sp r) (wdegAlt sp rs)
 end
 
 end Rx
